@@ -375,6 +375,33 @@ def c_history(ctx, case):
         if after != b:
             ctx.fail("C07.history", case, "tree-changed-after-failures",
                      f"parse({s!r}) = {b} before and {after} after {n} rejected strings")
+    # three steps on the one parser object: a string is read, ONE other string is refused (for
+    # leftover input after a complete expression, or inside an expression), the first string is
+    # read again -- whatever the refused parse had built must not come back
+    junk = ["(a - b) // c )", "x y", "a + b)", "f(a) g(b)", "a +", "1 2", "o[a]]", "a if b"]
+    for i, (s, b) in enumerate(zip(valid, before)):
+        for g in (junk[i % len(junk)], junk[(i + 3) % len(junk)], s + " )", s + " zz"):
+            ctx.case(None)
+            ctx.count("read_refuse_read_again")
+            try:
+                first = repr(parse(s))
+                try:
+                    parse(g)
+                except RecursionError:
+                    raise
+                except Exception:  # noqa: BLE001
+                    pass
+                again = repr(parse(s))
+            except RecursionError:
+                raise
+            except Exception as ex:  # noqa: BLE001
+                ctx.fail("C07.history", case, f"read-refuse-read:{type(ex).__name__}",
+                         f"parse({s!r}), a refused parse({g!r}), parse({s!r}) again raised {ex}")
+                continue
+            if first != b or again != b:
+                ctx.fail("C07.history", case, "tree-changed-after-one-refusal",
+                         f"parse({s!r}) = {b}; after the refused parse({g!r}) the same call "
+                         f"returns {again}")
 
 
 ATOM = ["a", "b", "c", "d", "1", "2", "0", "x"]
@@ -599,6 +626,7 @@ def workload(ctx):
     ctx.floor("respelled:dense", 500)
     ctx.floor("respelled:wide", 500)
     ctx.floor("rejected_between_valid", 500)
+    ctx.floor("read_refuse_read_again", 30)
     ctx.floor("strings_compared", 3000)
     ctx.floor("exhaustive_skeletons", 500)
     ctx.floor("importer_calls", 3000)
